@@ -3,6 +3,7 @@ package c04
 
 import (
 	"encoding/json"
+	"errors"
 	"fmt"
 	"reflect"
 	"testing"
@@ -43,6 +44,17 @@ func pokeWithCustomHooks(s size.Size) {
 	_ = u.UnmarshalText([]byte("3 KiB"))
 	_ = u.UnmarshalJSON([]byte(`{"value":3,"unit":"KiB"}`))
 	_ = json.Unmarshal([]byte(`["1kB"]`), &[]size.Size{})
+	// second stage: a Formatter that fails (after writing something), used once, before the defaults come back
+	// (PrettyString and PrettyHTML are documented to panic then)
+	size.Formatter = func(buf []byte, s size.Size, f size.Format) ([]byte, error) {
+		return append(buf, "part"...), errors.New("formatter refused")
+	}
+	_ = s.String()
+	_ = fmt.Sprintf("%s %v", s, s)
+	_, _ = s.MarshalText()
+	_, _ = s.MarshalJSON()
+	vkit.Panics(func() { _ = s.PrettyString() })
+	vkit.Panics(func() { _ = s.PrettyHTML() })
 }
 
 func configure(sw int) func() {
